@@ -39,7 +39,7 @@ def plan(tier, seed):
 
 
 def build(rnd):
-    socks = [{'name': 'web', 'kind': 'inet'}]
+    socks = [{'name': 'web', 'kind': 'inet', 'explicit': rnd.random() < .5}]
     if rnd.random() < .8:
         socks.append({'name': 'ux', 'kind': 'unix'})
     if rnd.random() < .4:
@@ -59,7 +59,9 @@ def ini_for(d, conf):
         if s['kind'] == 'unix':
             txt += '[socket:%s]\npath = @DIR@/%s.sock\n\n' % (s['name'], s['name'])
         else:
-            txt += '[socket:%s]\nhost = 127.0.0.1\nport = 0\n%s\n' % (s['name'], 'so_reuseport = True\n' if s.get('reuseport') else '')
+            txt += '[socket:%s]\nhost = 127.0.0.1\nport = 0\n%s%s\n' % (
+                s['name'], 'so_reuseport = True\n' if s.get('reuseport') else '',
+                'proto = tcp\nbacklog = 64\n' if s.get('explicit') else '')
     for w in conf['watchers']:
         base = live.worker_cmd({'log': '@LOG@', 'dump': True, 'tagw': w['name']})
         if w['where'] == 'cmd':
